@@ -44,6 +44,7 @@ import (
 	"github.com/cloudwego/hertz/internal/bytesconv"
 	"github.com/cloudwego/hertz/pkg/protocol"
 	"github.com/cloudwego/hertz/pkg/route/param"
+	"strings"
 )
 
 type sliceGetter func(req *protocol.Request, params param.Params, key string, defaultValue ...string) (ret []string)
@@ -123,7 +124,8 @@ func cookieSlice(req *protocol.Request, params param.Params, key string, default
 
 func headerSlice(req *protocol.Request, params param.Params, key string, defaultValue ...string) (ret []string) {
 	req.Header.VisitAll(func(headerKey, value []byte) {
-		if bytesconv.B2s(headerKey) == key {
+		// header names are case-insensitive (the scalar getter goes through Peek, which normalizes the key)
+		if strings.EqualFold(bytesconv.B2s(headerKey), key) {
 			ret = append(ret, string(value))
 		}
 	})
